@@ -3,6 +3,8 @@ import Ptn.C19.Spec
 import Ptn.C19.Lemmas
 import Ptn.C19.Mps
 import Ptn.C19.FromTensor
+import Ptn.C19.StarFork
+import Ptn.C19.Binary
 /-! Property theorems for C19. Only property theorems and non-vacuity examples live here. -/
 namespace Ptn.C19
 
@@ -206,5 +208,146 @@ example : fromTensor (.node 0 [.node 1 [.node 3 []], .node 2 []]) (fun i => [2, 
 
 example : ((RTree.node 0 [.node 1 [.node 3 []], .node 2 []]).ids.map (fun i => [2, 0, 3, 1].getD i 0)).Perm
     (List.range (RTree.node 0 [.node 1 [.node 3 []], .node 2 []]).size) := by decide
+
+/-! ### Star (`StarTreeTensorNetwork.add_center_node` / `add_chain_node`) -/
+
+/-- For every centre tensor shape and **every sequence of `add_chain_node(tensor, chain_index)` calls that
+    the code accepts** (any interleaving of the chains, any tensor shapes):
+    * dict order: the centre, then one node per call, the `k`-th call with chain index `c` creating
+      `chain c j` with `j` = number of earlier calls with index `c` (`prefix + c + "_" + j`); all distinct;
+    * `chains` bookkeeping: `len(chains[c])` = number of calls with index `c`, positive exactly for
+      `c < num_chains()`;
+    * every node's legs are in the order of the array handed in, i.e. the caller's axes
+      `(parent, next chain node, open…)` (centre: `(chain 0, chain 1, …, open…)`) are used as they are;
+      its shape is the shape handed in;
+    * the centre has no parent and its children are the chain heads `chain c 0` in order of first use;
+    * `chain c j` hangs below the centre (`j = 0`) or below `chain c (j-1)` (which exists), and has no
+      child or exactly the child `chain c (j+1)` (the latter iff that node exists): every chain is a
+      path hanging off the centre. -/
+theorem star_structure (cshape : List Nat) (calls : List (Nat × List Nat)) (st : Star)
+    (h : starRun cshape calls = some st) :
+    st.nodes.map (·.id) = .center :: (starOps calls).map (·.cid) ∧
+    (starOps calls).map (·.shape) = calls.map (·.2) ∧
+    (st.nodes.map (·.id)).Nodup ∧
+    (∀ c, c < st.lens.length → st.lens[c]? = some (cntC calls c) ∧ 0 < cntC calls c) ∧
+    (∀ c, st.lens.length ≤ c → cntC calls c = 0) ∧
+    ∀ x ∈ st.nodes,
+      x.legs = List.range x.dims.length ∧
+      (x.id = .center → x.parent = none ∧ x.dims = cshape ∧
+        x.children = ((starOps calls).map (·.cid)).filter StarId.isHead) ∧
+      (∀ o ∈ starOps calls, x.id = o.cid → x.dims = o.shape) ∧
+      (∀ c j, x.id = .chain c j →
+        x.parent = some (if j = 0 then StarId.center else .chain c (j - 1)) ∧
+        (0 < j → StarId.chain c (j - 1) ∈ st.nodes.map (·.id)) ∧
+        (x.children = [] ∨ x.children = [.chain c (j + 1)]) ∧
+        (StarId.chain c (j + 1) ∈ st.nodes.map (·.id) → x.children = [.chain c (j + 1)])) := by
+  have hinv := star_run_inv cshape calls [] (starInit cshape) st (starInv_init cshape) h
+  rw [List.nil_append] at hinv
+  obtain ⟨h1, h2, h3⟩ := star_nodes_of_inv cshape calls st hinv
+  exact ⟨h1, starOpsAux_shapes [] calls, h2, hinv.2.2.small, hinv.2.2.big, h3⟩
+
+example : (starRun [2, 3, 2] [(0, [2, 3, 2]), (1, [3, 2]), (0, [3, 2])]).map (·.nodes) = some
+    [⟨.center, none, [.chain 0 0, .chain 1 0], [0, 1, 2], [2, 3, 2]⟩,
+     ⟨.chain 0 0, some .center, [.chain 0 1], [0, 1, 2], [2, 3, 2]⟩,
+     ⟨.chain 1 0, some .center, [], [0, 1], [3, 2]⟩,
+     ⟨.chain 0 1, some (.chain 0 0), [], [0, 1], [3, 2]⟩] := by decide
+
+/-! ### Fork (`ForkTreeTensorNetwork.add_main_chain_node` / `add_sub_chain_node`) -/
+
+/-- For **every sequence of `add_main_chain_node` / `add_sub_chain_node` calls that the code accepts**: the
+    first call creates the root `main 0`; afterwards
+    * dict order: `main 0`, then one node per call - a main call creates `main m` (`m` = number of main
+      nodes so far), a call for sub-chain `i` creates `sub i j` with `j` = number of earlier calls for `i`
+      (`prefix + i + "_" + j`); all distinct; `len(sub_chains) = ` number of main nodes and
+      `len(sub_chains[i])` = number of calls for `i`;
+    * every node's legs are in the order of the array handed in (parent first, then the neighbours in
+      the order in which they get attached, then the open legs) with the shape handed in;
+    * `main k` has parent `main (k-1)` (none for `k = 0`); its children are among `main (k+1)`,
+      `sub k 0`, each at most once, in attachment order, and contain each of the two that exists;
+    * `sub i j` hangs below `main i` (`j = 0`) or `sub i (j-1)` (which exists) and has no child or exactly
+      `sub i (j+1)` (iff that node exists). -/
+theorem fork_structure (calls : List ForkCall) (st : Fork) (h : forkRun calls = some st) :
+    (calls = [] ∧ st = forkInit) ∨
+    ∃ rs rest, calls = ForkCall.main rs :: rest ∧
+      st.nodes.map (·.id) = .main 0 :: (forkOps rest).map (·.cid) ∧
+      (st.nodes.map (·.id)).Nodup ∧
+      st.subLens.length = cntM rest + 1 ∧
+      (∀ i, i < st.subLens.length → st.subLens[i]? = some (cntS rest i)) ∧
+      ∀ x ∈ st.nodes,
+        x.legs = List.range x.dims.length ∧
+        (∀ o ∈ forkOps rest, x.id = o.cid → x.dims = o.shape) ∧
+        (∀ k, x.id = .main k →
+          x.parent = (if k = 0 then none else some (ForkId.main (k - 1))) ∧
+          (k = 0 → x.dims = rs) ∧
+          (0 < k → ForkId.main (k - 1) ∈ st.nodes.map (·.id)) ∧
+          (∀ ch ∈ x.children, ch = ForkId.main (k + 1) ∨ ch = ForkId.sub k 0) ∧ x.children.Nodup ∧
+          (ForkId.main (k + 1) ∈ st.nodes.map (·.id) → ForkId.main (k + 1) ∈ x.children) ∧
+          (ForkId.sub k 0 ∈ st.nodes.map (·.id) → ForkId.sub k 0 ∈ x.children)) ∧
+        (∀ i j, x.id = .sub i j →
+          x.parent = some (if j = 0 then ForkId.main i else .sub i (j - 1)) ∧
+          (if j = 0 then ForkId.main i else ForkId.sub i (j - 1)) ∈ st.nodes.map (·.id) ∧
+          (x.children = [] ∨ x.children = [.sub i (j + 1)]) ∧
+          (ForkId.sub i (j + 1) ∈ st.nodes.map (·.id) → x.children = [.sub i (j + 1)])) := by
+  rcases fork_first calls st h with h0 | ⟨rs, rest, hc, hrun, hinit⟩
+  · exact Or.inl h0
+  · right
+    have hinv := fork_run_inv rs rest [] _ st hinit hrun
+    rw [List.nil_append] at hinv
+    exact ⟨rs, rest, hc, fork_nodes_of_inv rs rest st hinv⟩
+
+example : (forkRun [.main [2, 3], .sub 0 [2, 2], .main [3, 2, 2]]).map (·.nodes) = some
+    [⟨.main 0, none, [.sub 0 0, .main 1], [0, 1], [2, 3]⟩,
+     ⟨.sub 0 0, some (.main 0), [], [0, 1], [2, 2]⟩,
+     ⟨.main 1, some (.main 0), [], [0, 1, 2], [3, 2, 2]⟩] := by decide
+
+/-! ### Binary tree (`generate_binary_ttns`) -/
+
+/-- For every number of physical sites `nphys ≥ 2`, every bond dimension `bd ≥ 1` and every physical
+    dimension `d`, `generate_binary_ttns` completes (the breadth-first loop stops after `nphys - 1`
+    passes, every `add_child_to_parent` and every `replace_node` passes its checks) and returns exactly
+    `binFinal`: the complete binary tree with `2·nphys - 1` nodes in breadth-first numbering, where
+    * the nodes `0 … nphys-2` are virtual, `virtId h = prefix + level + "_" + position` with
+      `(level, position)` the `h`-th pair in breadth-first order (`position < 2^level`,
+      `2^level - 1 + position = h`, hence `2^level ≤ nphys - 1`), shape `(bd, bd, 1)` for the root and
+      `(bd, bd, bd, 1)` otherwise, legs in the order of the array `(parent, child, child, open)`;
+    * every virtual node `h` has exactly the two children with indices `2h+1`, `2h+2`
+      (`(level+1, 2·position)` and `(level+1, 2·position+1)`) and, for `h ≥ 1`, the parent `(h-1)/2`
+      (`(level-1, position/2)`);
+    * the nodes `nphys-1 … 2·nphys-2` are the physical sites `phys 0 … phys (nphys-1)` in this order,
+      each exactly once, each a leaf with legs `(parent, open)` and shape `(bd, d)`;
+    * dict order: virtual nodes in breadth-first order, then the physical sites in order; all distinct. -/
+theorem binary_structure (nphys bd d : Nat) (hn : 2 ≤ nphys) (hb : 1 ≤ bd) :
+    binGenerate nphys bd d = some (binFinal nphys bd d) ∧
+    (binFinal nphys bd d).map (·.id) =
+      (List.range (nphys - 1)).map virtId ++ (List.range nphys).map BinId.phys ∧
+    ((binFinal nphys bd d).map (·.id)).Nodup ∧
+    (binFinal nphys bd d).length = 2 * nphys - 1 := by
+  refine ⟨?_, binFinal_ids nphys bd d, ?_, ?_⟩
+  · rw [binGenerate_closed nphys bd d hn hb, replNodes_final nphys bd d (by omega)]
+  · rw [binFinal_ids]; exact binFinal_ids_nodup nphys
+  · simp [binFinal]; omega
+
+/-- The identifiers of the binary tree in (level, position) form: the `h`-th virtual node sits at a
+    valid position of breadth-first index `h`; its children sit one level down at positions `2p`,
+    `2p+1`; its parent (for `h ≥ 1`) one level up at position `p/2`. -/
+theorem binary_heap_ids (h : Nat) :
+    ValidPos (heapPos h) ∧ hidx (heapPos h) = h ∧
+    virtId (2 * h + 1) = .virt ((heapPos h).1 + 1) (2 * (heapPos h).2) ∧
+    virtId (2 * h + 2) = .virt ((heapPos h).1 + 1) (2 * (heapPos h).2 + 1) ∧
+    (0 < h → virtId ((h - 1) / 2) = .virt ((heapPos h).1 - 1) ((heapPos h).2 / 2) ∧ 0 < (heapPos h).1) := by
+  refine ⟨(heapPos_spec h).1, (heapPos_spec h).2, ?_, ?_, ?_⟩
+  · unfold virtId; rw [(heapPos_children h).1]
+  · unfold virtId; rw [(heapPos_children h).2]
+  · intro hh
+    have := heapPos_parent h hh
+    refine ⟨?_, this.2⟩
+    unfold virtId; rw [this.1]
+
+example : binGenerate 3 2 3 = some
+    [⟨.virt 0 0, none, [.virt 1 0, .phys 0], [0, 1, 2], [2, 2, 1]⟩,
+     ⟨.virt 1 0, some (.virt 0 0), [.phys 1, .phys 2], [0, 1, 2, 3], [2, 2, 2, 1]⟩,
+     ⟨.phys 0, some (.virt 0 0), [], [0, 1], [2, 3]⟩,
+     ⟨.phys 1, some (.virt 1 0), [], [0, 1], [2, 3]⟩,
+     ⟨.phys 2, some (.virt 1 0), [], [0, 1], [2, 3]⟩] := by decide
 
 end Ptn.C19
